@@ -165,6 +165,9 @@ func RunConc(s *kernel.Sim, prof *Profile, free bool) *Env {
 		maxOps = 8
 	}
 	w := []int{2, 2, 3, 2, 3, 6, 3, 2, 2}
+	if prof.CondHeavy {
+		w = []int{1, 1, 1, 1, 10, 4, 8, 2, 1}
+	}
 	var ops []*ConcOp
 	perClient := make([][]*ConcOp, nClients)
 	for c := 0; c < nClients; c++ {
